@@ -1,9 +1,12 @@
 package main
 
 import (
+	"encoding/base64"
 	"encoding/json"
 	"fmt"
+	"reflect"
 	"strings"
+	"time"
 
 	icl "github.com/moov-io/imagecashletter"
 )
@@ -132,6 +135,8 @@ var fixedFields = map[string]bool{"recordType": true, "reserved": true, "reserve
 type genOpts struct {
 	maxCL, maxBundles, maxItems int
 	binary                      bool // arbitrary bytes in signatures / images (length-prefix framing only)
+	b64                         int  // percent of images given as base64 text (standard or URL-safe alphabet) with LengthImageData = decoded size
+	zones                       bool // date members carry a non-UTC zone and a time of day that crosses midnight in UTC
 	mutateP                     int  // percent of fields varied
 }
 
@@ -224,7 +229,7 @@ func mkIVData(r rng, o genOpts) icl.ImageViewData {
 			if o.binary {
 				b[i] = byte(r.Intn(256))
 			} else {
-				b[i] = "ABCXYZ0189!$%*"[r.Intn(14)]
+				b[i] = "ABCXYZ0189!$%*-_+/="[r.Intn(19)]
 			}
 		}
 		if n > 0 {
@@ -254,6 +259,20 @@ func mkIVData(r rng, o genOpts) icl.ImageViewData {
 	}
 	d.ImageData = img
 	d.LengthImageData = fmt.Sprintf("%07d", len(img))
+	if o.b64 > 0 && r.Intn(100) < o.b64 {
+		// the documented alternative form: ImageData holds base64 text, LengthImageData the decoded size
+		raw := make([]byte, 3+r.Intn(60))
+		for i := range raw {
+			raw[i] = byte(r.Intn(256))
+		}
+		raw[0], raw[1], raw[2] = 0xfb, 0xef, 0xbe // encodes to "++++" / "----": both alphabets differ visibly
+		enc := base64.StdEncoding
+		if r.Intn(2) == 0 {
+			enc = base64.URLEncoding
+		}
+		d.ImageData = []byte(enc.EncodeToString(raw))
+		d.LengthImageData = fmt.Sprintf("%07d", len(raw))
+	}
 	return d
 }
 
@@ -377,19 +396,19 @@ func genFile(r rng, o genOpts) (*icl.File, error) {
 			}
 			cl.AddBundle(bundle)
 		}
-		for i := r.Intn(3) - 1; i > 0; i-- {
+		for i := []int{0, 0, 1, 2, 3}[r.Intn(5)]; i > 0; i-- {
 			cr := baseCredit()
 			mutateRecord(r, "Credit", cr, o.mutateP)
 			cr.ECEInstitutionItemSequenceNumber = fmt.Sprintf("%015d", 1+r.Intn(99999)) // kept raw by the reader: full width only
 			cl.AddCredit(cr)
 		}
-		for i := r.Intn(3) - 1; i > 0; i-- {
+		for i := []int{0, 0, 1, 2, 3}[r.Intn(5)]; i > 0; i-- {
 			ci := baseCreditItem()
 			mutateRecord(r, "CreditItem", ci, o.mutateP)
 			cl.AddCreditItem(ci)
 		}
 		if forward {
-			for i := r.Intn(3) - 1; i > 0; i-- {
+			for i := []int{0, 0, 1, 2, 3}[r.Intn(5)]; i > 0; i-- {
 				rns := baseRoutingNumberSummary()
 				mutateRecord(r, "RoutingNumberSummary", rns, o.mutateP)
 				cl.AddRoutingNumberSummary(rns)
@@ -403,5 +422,38 @@ func genFile(r rng, o genOpts) (*icl.File, error) {
 	if err := f.Create(); err != nil {
 		return nil, fmt.Errorf("file create: %w", err)
 	}
+	if o.zones {
+		zoneDates(reflect.ValueOf(f), time.FixedZone("UTC-5", -5*3600))
+	}
 	return f, nil
+}
+
+// zoneDates rewrites every non-zero date member to 21:30 of the same calendar day in loc (a later day
+// in UTC): the X9 rendering (the time's own calendar day) is unchanged, the JSON instant is not.
+func zoneDates(v reflect.Value, loc *time.Location) {
+	switch v.Kind() {
+	case reflect.Ptr:
+		if !v.IsNil() {
+			zoneDates(v.Elem(), loc)
+		}
+	case reflect.Struct:
+		if v.Type() == reflect.TypeOf(time.Time{}) {
+			t := v.Interface().(time.Time)
+			if !t.IsZero() && v.CanSet() && t.Year() > 1900 && t.Hour() == 0 && t.Minute() == 0 {
+				v.Set(reflect.ValueOf(time.Date(t.Year(), t.Month(), t.Day(), 21, 30, 0, 0, loc)))
+			}
+			return
+		}
+		for i := 0; i < v.NumField(); i++ {
+			if v.Type().Field(i).PkgPath == "" {
+				zoneDates(v.Field(i), loc)
+			}
+		}
+	case reflect.Slice:
+		if v.Type().Elem().Kind() != reflect.Uint8 {
+			for i := 0; i < v.Len(); i++ {
+				zoneDates(v.Index(i), loc)
+			}
+		}
+	}
 }
